@@ -16,6 +16,7 @@ import (
 func init() { register("C14", c14) }
 
 func c14(r *core.Report) {
+	c14NoUnwrap(r)
 	p := r.Prog
 	p.BuildSSA()
 	r.Assumption("behaviour over sequences of handler calls (no write at all, the strict-mode WriteHeader(0) case) is a history property of the wrapper state machine and is not decided")
@@ -819,5 +820,40 @@ func c14Informational(r *core.Report) {
 				return true
 			})
 		}
+	})
+}
+
+// c14NoUnwrap: in strict mode nothing reaches the client before the response validated. The
+// wrapper that buffers the response must not give the handler a way to the client's writer:
+// http.ResponseController follows Unwrap() and flushes (commits the header of) whatever it finds.
+func c14NoUnwrap(r *core.Report) {
+	p := r.Prog
+	info := p.Pkg("openapi3filter").TypesInfo
+	r.RunRule("C14.nounwrap", "the strict wrapper keeps the client's writer to itself: no method of strictResponseWrapper returns an http.ResponseWriter (an Unwrap() lets http.NewResponseController(w).Flush() commit the header, status 200, before the response was validated; the 500 that should replace an invalid response then arrives as a 200)", 1, func() {
+		st := p.NamedType("openapi3filter", "strictResponseWrapper")
+		bad := ""
+		n := 0
+		for _, d := range p.AllDecls("openapi3filter") {
+			if d.Recv == nil || d.Type.Results == nil {
+				continue
+			}
+			rt := info.TypeOf(d.Recv.List[0].Type)
+			if pt, ok := rt.(*types.Pointer); ok {
+				rt = pt.Elem()
+			}
+			if core.NamedOf(rt) != st {
+				continue
+			}
+			n++
+			for _, res := range d.Type.Results.List {
+				if nn := core.NamedOf(info.TypeOf(res.Type)); nn != nil && nn.Obj().Pkg() != nil && nn.Obj().Pkg().Path() == "net/http" && nn.Obj().Name() == "ResponseWriter" {
+					bad = core.FuncName(d)
+				}
+			}
+		}
+		if n == 0 {
+			core.Fail("strictResponseWrapper has no methods")
+		}
+		r.Check(bad == "", "nounwrap:strictResponseWrapper", "openapi3filter/middleware.go", "no method hands out a ResponseWriter", "strictResponseWrapper."+bad+" returns an http.ResponseWriter: a handler (or http.ResponseController on its behalf) reaches the client's writer behind the buffer, and what it flushes is on the wire before the response was validated")
 	})
 }
